@@ -287,7 +287,8 @@ def plan(tier):
         n, nf = 100000, 4000
     specs = []
     for i in range(16):
-        specs.append({'n': n, 'mode': 'wf' if i % 2 == 0 else 'broad', 'fixlayout': nf, 'fixtures': i == 0})
+        specs.append({'n': n, 'mode': 'wf' if i % 2 == 0 else 'broad', 'fixlayout': nf, 'fixtures': i == 0,
+                      'fuzz': 0 if tier == 'quick' else 4000})
     return specs
 
 
@@ -297,6 +298,10 @@ def run_shard(ctx, spec):
             ctx.run_case({'k': 'fixture', 'ref': [fx['file'], fx['idx']]}, reraise=False)
     ctx.hyp(fixlayout_strategy(), spec['fixlayout'], name='fixlayout')
     ctx.hyp(strategy(spec['mode']), spec['n'], name='gen')
+    if spec.get('fuzz'):
+        # coverage-guided stage (thorough tier): libFuzzer mutates the byte stream behind the same strategy, guided by
+        # edge coverage of giscanner.annotationparser; same oracles
+        ctx.fuzz(strategy(spec['mode']), spec['fuzz'], name='gen-' + spec['mode'])
 
 
 def health(agg, tier):
